@@ -73,6 +73,77 @@ theorem dynmat_time_reversal (T : FTables np ns nr) (fc : Fin nr → Fin ns → 
     dynmat T fc ms (conjPh ph) = conjDM (dynmat T fc ms ph) := by
   unfold dynmat; rw [dynmatRaw_conj, hermitize_conj]
 
+/-! ### time reversal up to the zone factor
+
+For the representative `−q + G₀` of `−q` in another zone every phase factor of the pair
+(atom of sublattice `j`, primitive atom `i`) is `g j i · conj` of the one at `q`, with the unit
+factor `g j i = exp(2πi G₀·(x_j − x_i))`. -/
+
+theorem sumList_map_lin (l : List (Cx K)) (a b n : K) :
+    sumList (l.map fun z => (a * z.re + b * z.im) / n) =
+      a * sumList (l.map fun z => z.re / n) + b * sumList (l.map fun z => z.im / n) := by
+  induction l with
+  | nil => simp [sumList]
+  | cons x xs ih =>
+    simp only [List.map_cons, sumList, List.foldr_cons] at ih ⊢
+    rw [ih]; ring
+
+theorem avgDivEach_map_mul_conj (c : Cx K) (zs : List (Cx K)) :
+    avgDivEach (zs.map fun z => c * z.conj) = c * (avgDivEach zs).conj := by
+  ext
+  · simp only [avgDivEach, List.length_map, List.map_map, Cx.mul_re, Cx.conj_re, Cx.conj_im]
+    have := sumList_map_lin zs c.re c.im (zs.length : K)
+    rw [← sub_eq_zero]
+    have e : (List.map ((fun z : Cx K => z.re / (zs.length : K)) ∘ fun z => c * z.conj) zs)
+        = zs.map fun z => (c.re * z.re + c.im * z.im) / (zs.length : K) := by
+      apply List.map_congr_left; intro z _; simp only [Function.comp, Cx.mul_re, Cx.conj_re, Cx.conj_im]; ring
+    rw [e, this]; ring
+  · simp only [avgDivEach, List.length_map, List.map_map, Cx.mul_im, Cx.conj_re, Cx.conj_im]
+    have := sumList_map_lin zs c.im (-c.re) (zs.length : K)
+    rw [← sub_eq_zero]
+    have e : (List.map ((fun z : Cx K => z.im / (zs.length : K)) ∘ fun z => c * z.conj) zs)
+        = zs.map fun z => (c.im * z.re + -c.re * z.im) / (zs.length : K) := by
+      apply List.map_congr_left; intro z _; simp only [Function.comp, Cx.mul_im, Cx.conj_re, Cx.conj_im]; ring
+    rw [e, this]; ring
+
+theorem dynmatRaw_cx (T : FTables np ns nr) (fc : Fin nr → Fin ns → Fin 3 → Fin 3 → K)
+    (ms : Fin np → Fin np → K) (ph : Phases np ns K) (i : Fin np) (a : Fin 3) (j : Fin np) (b : Fin 3) :
+    dynmatRaw T fc ms ph i a j b =
+      Cx.ofK (1 / ms i j) * ∑ k, if T.s2p k = (T.p2s j).1 then Cx.ofK (fc (T.p2s i) k a b) * avgDivEach (ph k i) else 0 := by
+  ext
+  · simp only [dynmatRaw, sumFin_eq, Cx.mul_re, Cx.ofK_re, Cx.ofK_im, Cx.re_sum, Cx.im_sum, zero_mul, sub_zero,
+      apply_ite Cx.re, Cx.zero_re]
+    rw [div_eq_mul_inv, mul_comm]; simp
+  · simp only [dynmatRaw, sumFin_eq, Cx.mul_im, Cx.ofK_re, Cx.ofK_im, Cx.re_sum, Cx.im_sum, zero_mul, add_zero,
+      apply_ite Cx.im, Cx.zero_im]
+    rw [div_eq_mul_inv, mul_comm]; simp
+
+/-- the plain dynamical matrix at the representative `−q + G₀`: `D'[i,j] = g j i · conj D[i,j]` -/
+theorem dynmat_twist (T : FTables np ns nr) (fc : Fin nr → Fin ns → Fin 3 → Fin 3 → K)
+    (ms : Fin np → Fin np → K) (hsym : ∀ i j, ms j i = ms i j) (ph ph' : Phases np ns K) (g : Fin np → Fin np → Cx K)
+    (hg : ∀ i j, g i j = (g j i).conj)
+    (hph : ∀ k i j, T.s2p k = (T.p2s j).1 → ph' k i = (ph k i).map fun z => g j i * z.conj) :
+    dynmat T fc ms ph' = fun i a j b => g j i * (dynmat T fc ms ph i a j b).conj := by
+  have hraw : ∀ i a j b, dynmatRaw T fc ms ph' i a j b = g j i * (dynmatRaw T fc ms ph i a j b).conj := by
+    intro i a j b
+    rw [dynmatRaw_cx, dynmatRaw_cx, Cx.conj_mul, Cx.conj_sum, Finset.mul_sum, Finset.mul_sum, Finset.mul_sum]
+    apply Finset.sum_congr rfl
+    intro k _
+    by_cases hc : T.s2p k = (T.p2s j).1
+    · simp only [if_pos hc, hph k i j hc, avgDivEach_map_mul_conj, Cx.conj_mul]
+      have e1 : (Cx.ofK (1 / ms i j)).conj = Cx.ofK (1 / ms i j) := by ext <;> simp
+      have e2 : (Cx.ofK (fc (T.p2s i) k a b)).conj = Cx.ofK (fc (T.p2s i) k a b) := by ext <;> simp
+      rw [e1, e2]; ring
+    · simp [if_neg hc]
+  funext i a j b
+  have h1 := hraw i a j b
+  have h2 := hraw j b i a
+  have hg' := hg i j
+  have hm := hsym i j
+  ext
+  · simp only [dynmat, hermitize, h1, h2, hg', Cx.mul_re, Cx.mul_im, Cx.conj_re, Cx.conj_im]; ring
+  · simp only [dynmat, hermitize, h1, h2, hg', Cx.mul_re, Cx.mul_im, Cx.conj_re, Cx.conj_im]; ring
+
 /-! ### Gonze–Lee reciprocal part -/
 
 theorem normSq_neg (v : V3 K) : normSq (fun i => -v i) = normSq v := by
